@@ -261,7 +261,7 @@ fn structured(ctx: &mut Ctx, rng: &mut Rng, rounds: usize) {
         let claims = tree.plain();
         let mut header = Header::new(Algorithm::HS256);
         header.typ = Some("sd-jwt".into());
-        let req = IssueReq { claims: &claims, paths: &paths, decoy: None, cnf: None, header: Some(header), exp_in: None, repeats: 1 };
+        let req = IssueReq { claims: &claims, paths: &paths, decoy: None, cnf: None, header: Some(header), exp_in: None, repeats: 1, late_marks: 0 };
         let token = match real::issue(&req, &keys::enc_key(0, 0)) {
             Out::Ok(t) => t[0].clone(),
             other => {
